@@ -188,7 +188,7 @@ Definition sh (l : list dref) : string := String.concat ";" (map (fun r => dr_mo
 
 
 def defaults(c, n):
-    from sidemantic import Dimension, Metric, Model
+    from sidemantic import Dimension, Metric, Model, Relationship
     from sidemantic.sql.generator import SQLGenerator
     cases, terms = [], []
     for _ in range(n):
@@ -200,6 +200,7 @@ def defaults(c, n):
             gr = c.rng.choice([None, "month", "week"]) if df else None
             ms.append((name, dims, df, gr))
             L.add_model(Model(name=name, table=name, primary_key="id", default_time_dimension=df, default_grain=gr,
+                              relationships=([Relationship(name="a", type="many_to_one", foreign_key="a_id")] if name != "a" else []),
                               dimensions=[Dimension(name=d, type="time" if t else "categorical", granularity="day" if t else None) for d, t in dims],
                               metrics=[Metric(name="m", agg="count"), Metric(name="m2", agg="count")]))
         L.add_metric(Metric(name="gm", agg="sum", sql="a.k"))
@@ -212,6 +213,22 @@ def defaults(c, n):
             dims.append("%s.%s%s" % (mn, d, c.rng.choice(["", "__month", "__day"]) if t else ""))
         got = SQLGenerator(L.graph)._apply_default_time_dimensions(metrics, list(dims))
         cases.append((ms, metrics, dims, got))
+        # the caller keeps ONE dimension list for two queries on this layer: first this query, then a query for the metrics of one other model only --
+        # the second must compile to what it compiles to with a list of its own (no default time dimension left behind by the first)
+        if len(names) > 1 and dims:
+            others = [x + ".m" for x in names if not any(m.startswith(x + ".") for m in metrics)]
+            if others:
+                shared = list(dims)
+                try:
+                    L.compile(metrics=list(metrics), dimensions=shared)
+                    second = L.compile(metrics=[others[0]], dimensions=shared)
+                    alone = L.compile(metrics=[others[0]], dimensions=list(dims))
+                    c.coverage["shared_dimension_lists"] = c.coverage.get("shared_dimension_lists", 0) + 1
+                    if second != alone:
+                        c.violation("a query that names no metric of a model carries that model's default time dimension because an earlier query was given the same dimension list object",
+                                    {"kind": "shared_list", "models": ms, "first_metrics": metrics, "second_metrics": [others[0]], "dims": dims, "list_after": shared, "second_sql": second[-600:], "alone_sql": alone[-600:]})
+                except Exception:
+                    c.coverage["shared_dimension_list_errors"] = c.coverage.get("shared_dimension_list_errors", 0) + 1
         opt = lambda x: "None" if x is None else '(Some "%s")' % x
         cm = "[" + "; ".join('TM "%s" [%s] %s %s' % (nm, "; ".join('TD "%s" %s' % (d, "true" if t else "false") for d, t in dd), opt(df), opt(gr)) for nm, dd, df, gr in ms) + "]"
         cmet = "[" + "; ".join(opt(m.split(".")[0]) if "." in m else "None" for m in metrics) + "]"
